@@ -154,6 +154,10 @@ def run(names, budget, props):
             table[name] = row
             if OWNER_ONLY:
                 print("%-12s owner=%s caught=%s %s" % (name, meta.get("property"), caught, row[props[0]]["first"][:160]), flush=True)
+                if SAVE_OWNER:
+                    meta["checks_quick"] = {"budget_s": budget, "result": row, "caught_by": caught, "only_the_owning_check_was_run": True,
+                                            "commit_of_verif": sh(["git", "-C", VERIF, "rev-parse", "--short", "HEAD"]).stdout.strip()}
+                    json.dump(meta, open(os.path.join(d, "meta.json"), "w"), indent=1)
                 continue
             meta["checks_quick"] = {"budget_s": budget, "result": row, "caught_by": caught, "commit_of_verif": sh(["git", "-C", VERIF, "rev-parse", "--short", "HEAD"]).stdout.strip()}
             json.dump(meta, open(os.path.join(d, "meta.json"), "w"), indent=1)
@@ -166,12 +170,16 @@ def run(names, budget, props):
 
 
 OWNER_ONLY = False
+SAVE_OWNER = False
 
 if __name__ == "__main__":
     a = sys.argv[1:]
     if "--owner-only" in a:
         OWNER_ONLY = True
         a.remove("--owner-only")
+    if "--save" in a:
+        SAVE_OWNER = True
+        a.remove("--save")
     if "--dir" in a:
         i = a.index("--dir")
         SEEDDIR = a[i + 1]
